@@ -101,7 +101,7 @@ func runE2E(sx, outp string) {
 	var res []e2eObs
 	var mu sync.Mutex
 	var wg sync.WaitGroup
-	for _, kind := range []string{"socks", "elastic", "docker", "socks+bad"} {
+	for _, kind := range []string{"socks", "elastic", "docker", "socks+bad", "socks+bad6000"} {
 		wg.Add(1)
 		go func(kind string) {
 			defer wg.Done()
@@ -109,6 +109,10 @@ func runE2E(sx, outp string) {
 			if kind == "socks+bad" {
 				// one good target followed by many entries that cannot become a probe: one error record each
 				kind, bad = "socks", 260
+			}
+			if kind == "socks+bad6000" {
+				// the same with thousands of them within a second (a target file full of bad lines)
+				kind, bad = "socks", 6000
 			}
 			cnt := &counter{n: map[string]int{}}
 			var ports []int
@@ -227,7 +231,9 @@ func runE2ECancel(sx, outp string) {
 	dir, _ = filepath.Abs(dir)
 	defer os.RemoveAll(dir)
 	type plan struct{ kind, stall string }
-	plans := []plan{{"socks", "reply"}, {"elastic", "info"}, {"elastic", "aliases"}, {"docker", "ping"}, {"docker", "info"}}
+	plans := []plan{{"socks", "reply"}, {"elastic", "info"}, {"elastic", "aliases"}, {"docker", "ping"}, {"docker", "info"},
+		// the address list comes from a producer on stdin that has not finished (a pipe that stays open)
+		{"socks", "stdin-open"}, {"elastic", "stdin-open"}}
 	res := make([]cancelObs, len(plans))
 	var wg sync.WaitGroup
 	for i, pl := range plans {
@@ -265,7 +271,7 @@ func runE2ECancel(sx, outp string) {
 				mux.HandleFunc("/", func(w http.ResponseWriter, r *http.Request) {
 					w.Header().Set("Content-Type", "application/json")
 					path := r.URL.Path
-					stallHere := (pl.kind == "elastic" && pl.stall == "info" && path == "/") ||
+					stallHere := (pl.kind == "elastic" && (pl.stall == "info" || pl.stall == "stdin-open") && path == "/") ||
 						(pl.kind == "elastic" && pl.stall == "aliases" && path != "/") ||
 						(pl.kind == "docker" && pl.stall == "ping" && strings.HasSuffix(path, "/_ping")) ||
 						(pl.kind == "docker" && pl.stall == "info" && strings.HasSuffix(path, "/info"))
@@ -297,6 +303,22 @@ func runE2ECancel(sx, outp string) {
 			cmd := exec.Command(sx, o.Args...)
 			cmd.Stdout, cmd.Stderr = &stdout, &stderr
 			cmd.Env = append(os.Environ(), "HTTP_PROXY=", "http_proxy=", "NO_PROXY=*")
+			wait := 10 * time.Second
+			if pl.stall == "stdin-open" {
+				o.Args = []string{pl.kind, "--json", "-p", fmt.Sprint(p), "-f", "-", "-w", "2", "-t", "30s", "--exit-delay", "300ms"}
+				cmd = exec.Command(sx, o.Args...)
+				cmd.Stdout, cmd.Stderr = &stdout, &stderr
+				cmd.Env = append(os.Environ(), "HTTP_PROXY=", "http_proxy=", "NO_PROXY=*")
+				pr, pw, err := os.Pipe()
+				if err != nil {
+					return
+				}
+				defer pr.Close()
+				defer pw.Close() // the write end stays open until the run is over
+				cmd.Stdin = pr
+				fmt.Fprint(pw, "{\"ip\":\"127.0.0.1\"}\n")
+				wait = 3 * time.Second
+			}
 			if err := cmd.Start(); err != nil {
 				o.Stderr = err.Error()
 				return
@@ -307,9 +329,9 @@ func runE2ECancel(sx, outp string) {
 			case <-seen:
 				o.Seen = true
 			case <-exited:
-			case <-time.After(10 * time.Second):
+			case <-time.After(wait):
 			}
-			if o.Seen {
+			if o.Seen || pl.stall == "stdin-open" {
 				time.Sleep(100 * time.Millisecond)
 				t0 := time.Now()
 				cmd.Process.Signal(os.Interrupt)
